@@ -63,6 +63,13 @@ def jobs(tier):
                        require=[r"assertion chisq >= 0", r"variance estimate of a leakage term is never negative"],
                        bound="%s 2x2, same history; one leakage cell's accumulated sum, sum of squares and count symbolic (bounded, NOT assumed consistent in exact arithmetic)" % t,
                        timeout=600, cbmc_flags=["--no-leak"]))
+    for t in (["VNACAL_T8", "VNACAL_UE14"] if tier == "quick" else ["VNACAL_T8", "VNACAL_U8", "VNACAL_TE10", "VNACAL_UE10", "VNACAL_UE14", "VNACAL_E12"]):
+        d = C20.CUT + ["-DCAL_TYPE=%s" % t, "-DH_PVALUE"]
+        J.append(V.Job("pvalue_df0.%s" % t[7:], H, "h_pvalue_df0", srcs, defines=d, unwind=16, union_struct=True,
+                       kind="bounded", canary=(t == "VNACAL_T8"),
+                       functions=["_vnacal_new_solve_calc_pvalue (no degrees of freedom)"],
+                       bound="%s 1x1, short/open/match (exactly determined), nf = tr = 1; the three solved terms: any numbers" % t,
+                       timeout=300, cbmc_flags=["--no-leak", "--slice-formula"]))
     for j in C10.jobs("quick"):
         if j.name in ("range.m_error", "spline.knots.n1", "spline.knots.n2", "spline.linear"):
             j.name = "noise_grid." + j.name      # clause: noise vectors on their own grid pass through the given points
